@@ -82,7 +82,7 @@ func faultRun(ctx context.Context, cfg Config, p0 *Program, pi, run int, f *deco
 	env := sopenv.New(folder, decor.NewHub())
 	env.Hub.Record = bfile != nil
 	env.GateAll = true
-	r := &Runner{Env: env, Rec: &Recorder{}, MaxTime: time.Duration(envInt("VERIF_MAXTIME_MS", 5000)) * time.Millisecond}
+	r := &Runner{Env: env, Rec: &Recorder{}, MaxTime: time.Duration(envInt("VERIF_MAXTIME_MS", 5000)) * time.Millisecond, Deadline: true}
 	t0 := time.Now()
 	var kinds []string
 	var all []decor.Event
